@@ -277,6 +277,24 @@ func genScenario(src *tape.Source) *scenario {
 			sc.Dialect = []string{"mysql", "postgresql", "sqlserver", "sqlite"}[src.Intn(4, "c19.d")]
 			sc.Args = append(sc.Args, "--dialect", sc.Dialect)
 		}
+		if sc.Strict && sc.Dialect == "" && src.Intn(2, "c19.strictdialect") == 1 {
+			// both options together: every input path has to honour both of them
+			sc.Dialect = []string{"mysql", "postgresql", "sqlserver", "sqlite"}[src.Intn(4, "c19.d2")]
+			sc.Args = append(sc.Args, "--dialect", sc.Dialect)
+		}
+		if (sc.Strict || sc.Dialect != "") && src.Intn(2, "c19.sensitive") == 1 {
+			// an option only matters on a text it decides: the first input (the one
+			// that is given inline or on stdin) is one that the option decides
+			k := "SELECT * FROM t LIMIT 10, 20"
+			if sc.Strict && (sc.Dialect == "" || src.Intn(3, "c19.sensitivekind") > 0) {
+				k = "SELECT 1;;\n"
+			}
+			kind := "dialect-sensitive"
+			if k[7] == '1' {
+				kind = "strict-sensitive"
+			}
+			sc.Files[0].Content, sc.Files[0].Kind = k, kind
+		}
 		sc.Format = []string{"text", "json", "sarif"}[src.Intn(3, "c19.of")]
 		if sc.Format != "text" {
 			sc.Args = append(sc.Args, "--output-format", sc.Format)
